@@ -41,7 +41,21 @@ def inputs():
            'kill_chain_phases': [{'kill_chain_name': 'k', 'phase_name': 'p'}], 'external_references': [{'source_name': 's', 'hashes': {'MD5': 'c' * 32}, 'external_id': 'e'}],
            'object_marking_refs': [TLP], 'granular_markings': [{'marking_ref': TLP, 'selectors': ['name', 'labels.[0]']}], 'x_custom': {'deep': [1, {'k': [2]}]}}
     ident20 = {'type': 'identity', 'id': 'identity--' + G.UUID, 'created': G.T1, 'modified': G.T1, 'name': 'n', 'identity_class': 'individual', 'labels': ['l']}
-    return {'file+extension (2.1)': ext_file, 'observed-data (2.0)': od20, 'malware+markings+custom (2.1)': mal, 'identity (2.0)': ident20}
+    # hash dictionaries whose keys are not in the specification's spelling (the library renames them in ITS copy), at top level and in an embedded object
+    file_hashes = {'type': 'file', 'spec_version': '2.1', 'id': 'file--' + G.UUID2, 'name': 'g', 'hashes': {'md5': 'a' * 32, 'Sha-1': 'b' * 40, 'sha256': 'c' * 64, 'SHA-512': 'd' * 128}}
+    ident_hashes = {'type': 'identity', 'id': 'identity--' + G.UUID2, 'created': G.T1, 'modified': G.T1, 'name': 'n', 'identity_class': 'individual',
+                    'external_references': [{'source_name': 's', 'url': 'http://x', 'hashes': {'sha256': 'c' * 64, 'md5': 'a' * 32}}]}
+    # a custom type declared with extension_name: the library adds the extension-definition entry to the object, not to the caller's dictionary
+    from stix2 import registry
+    EXT = 'extension-definition--' + G.UUID2
+    if 'x-vf-ext-sdo' not in registry.STIX2_OBJ_MAPS['2.1']['objects']:
+        @stix2.v21.CustomObject('x-vf-ext-sdo', [('x_p', stix2.properties.StringProperty())], extension_name=EXT)
+        class VFExtSdo(object): pass
+    ext_sdo = {'type': 'x-vf-ext-sdo', 'spec_version': '2.1', 'id': 'x-vf-ext-sdo--' + G.UUID, 'created': G.T1, 'modified': G.T1, 'x_p': 'v', 'extensions': {'x-other-ext': {'a': [1]}}}
+    ext_sdo2 = dict(ext_sdo, id='x-vf-ext-sdo--' + G.UUID2, extensions={EXT: {'extension_type': 'new-sdo'}})
+    return {'file+extension (2.1)': ext_file, 'observed-data (2.0)': od20, 'malware+markings+custom (2.1)': mal, 'identity (2.0)': ident20,
+            'file with differently spelled hash names (2.1)': file_hashes, 'embedded hashes with differently spelled names (2.0)': ident_hashes,
+            'custom type with extension_name, own extensions given': ext_sdo, 'custom type with extension_name, definition entry given': ext_sdo2}
 
 
 def run(chk):
@@ -83,6 +97,7 @@ def run(chk):
                 'FileSystemStore.add(object)': lambda d, o: stix2.FileSystemStore(tempfile.mkdtemp(dir=tmp), allow_custom=True).add(o),
                 'FileSystemStore.add(dict)': lambda d, o: stix2.FileSystemStore(tempfile.mkdtemp(dir=tmp), allow_custom=True).add(d),
                 'serialize(pretty)': lambda d, o: o.serialize(pretty=True, include_optional_defaults=True),
+                'other objects built from this object\'s property values': lambda d, o: _reuse(o),
                 'Environment.add + query': lambda d, o: _env(d, o),
             }
             return ops
@@ -102,6 +117,21 @@ def run(chk):
                 return r, keep
             if how == 'kw': r = B(objects=keep, allow_custom=True); return r, keep
             r = B(other, objects=keepd, allow_custom=True); return r, keepd
+
+        def _reuse(o):
+            import stix2.patterns as SP2, stix2.utils as SU
+            out = []
+            for k in ('created', 'modified', 'first_observed'):
+                if k in o:
+                    out.append(_try(lambda: stix2.v21.Indicator(pattern="[file:name = 'a']", pattern_type='stix', valid_from=o[k])))
+                    out.append(_try(lambda: stix2.v20.Indicator(pattern="[file:name = 'a']", labels=['l'], valid_from=o[k], created=o[k], modified=o[k])))
+                    out.append(_try(lambda: stix2.v21.Sighting(sighting_of_ref='indicator--' + G.UUID, first_seen=o[k], last_seen=o[k])))
+                    out.append(_try(lambda: SP2.TimestampConstant(o[k])))
+                    for pr, pc in (('any', 'exact'), ('second', 'exact'), ('millisecond', 'min'), ('second', 'min')):
+                        out.append(_try(lambda: SU.parse_into_datetime(o[k], pr, pc))); out.append(_try(lambda: SU.STIXdatetime(o[k], precision=pr, precision_constraint=pc)))
+            for k in ('labels', 'external_references', 'kill_chain_phases', 'object_marking_refs', 'granular_markings', 'extensions', 'hashes'):
+                if k in o: out.append(_try(lambda: type(o)(**{**{p: v for p, v in o.items() if p != 'id'}, k: o[k]})))
+            return out
 
         def _env(d, o):
             env = stix2.Environment(store=stix2.MemoryStore(allow_custom=True)); env.add(o); return env.query([stix2.Filter('id', '=', d['id'])])
@@ -128,7 +158,7 @@ def run(chk):
                 if snapshot(o) != o0: return (f'frame#{a}:existing object', f'{iname}: {a} modified a previously created object (sequence {seq})', {})
             return None
         chk.bounded('frame: arguments and existing objects unchanged after every operation', list(cases()), check, classify=lambda c: c,
-                    bound=f'4 nested input shapes x {len(ops)} operations singly and in sequences of 2 (' + ('every 5th pair' if chk.tier == 'quick' else 'all pairs') + ')')
+                    bound=f'{len(ins)} nested input shapes x {len(ops)} operations singly and in sequences of 2 (' + ('every 5th pair' if chk.tier == 'quick' else 'all pairs') + ')')
 
         def imm_cases():
             for iname in ins:
